@@ -629,8 +629,9 @@ def rule_intdiv(ctx, tu):
 
 
 # float -> int conversions of the engine that were read and found bounded: (function, converted expression) -> reason
+# keyed by (function, the local tables the converted expression is made of) -- not by its spelling
 FPCAST_OK = {
-    ("GenerateStochasticDistribution", "dtot_species[s]"):
+    ("GenerateStochasticDistribution", frozenset({"tot_species", "tot2_species", "dtot_species"})):
         "difference between the drawn and the floored total of one species: of the order of the square root of the total, "
         "outside the int range only for totals no double can count exactly",
 }
@@ -657,8 +658,12 @@ def rule_fpcast(ctx, tu):
             seen.add(key)
             n += 1
             lit = strip(inner, casts=True).get("kind") == "FloatingLiteral"
-            ok = lit or key in FPCAST_OK or (f.qual, text(inner)) in FPCAST_OK
-            ctx.check(ok, R, x, f.qual, "int(%s)" % text(inner)[:50], FPCAST_OK.get(key, "bounded by construction"),
+            bases = {name_of(strip(subscript(y)[0], casts=True)) for y in walk(inner) if subscript(y) is not None}
+            others = [y for y in walk(inner) if y.get("kind") in ("DeclRefExpr", "MemberExpr") and
+                      (uname(y) or name_of(y)) not in bases and y.get("type", {}).get("qualType", "") in ("double", "float", "const double")]
+            why = next((r_ for (fq, names), r_ in FPCAST_OK.items() if fq == f.qual and bases and bases <= names and not others), None)
+            ok = lit or why is not None
+            ctx.check(ok, R, x, f.qual, "int(%s)" % text(inner)[:50], why or "bounded by construction",
                       "`%s` is converted to an integer type: the conversion is undefined once the value exceeds the integer "
                       "range (2^31 - 1 molecules in one cell is 3.6 fmol), and nothing bounds it" % text(inner)[:50])
     ctx.ok(R, None, "engine", "%d float -> int conversions examined" % n, "each bounded by construction")
